@@ -7,6 +7,8 @@ package main
 
 import (
 	"fmt"
+	"os"
+	"runtime/debug"
 	"sort"
 
 	"github.com/RoaringBitmap/roaring/v2"
@@ -33,6 +35,7 @@ type OPost struct {
 	T    B      `json:"t"`
 	N    int    `json:"n"`
 	Hits []OHit `json:"hits"`
+	Pre  bool   `json:"pre"` // read through a postings list / iterator reused from the previous probes
 }
 
 type ODictEnt struct {
@@ -163,10 +166,16 @@ func ckInt(x uint64) int {
 
 type unrepresentable struct{ v uint64 }
 
-func readHits(pl segment.PostingsList) (n int, hits []OHit, err error) {
+func readHits(pl segment.PostingsList, pre *segment.PostingsIterator) (n int, hits []OHit, err error) {
 	n = ckInt(pl.Count())
 	hits = []OHit{}
-	it := pl.Iterator(true, true, true, nil)
+	var it segment.PostingsIterator
+	if pre != nil {
+		it = pl.Iterator(true, true, true, *pre)
+		*pre = it
+	} else {
+		it = pl.Iterator(true, true, true, nil)
+	}
 	for {
 		p, e := it.Next()
 		if e != nil {
@@ -212,6 +221,9 @@ func Observe(seg segment.Segment, pr *Probes) (o *Obs) {
 			if r := recover(); r != nil {
 				if u, ok := r.(unrepresentable); ok {
 					panic(u)
+				}
+				if os.Getenv("VERIF_DEBUG") != "" {
+					fmt.Fprintf(os.Stderr, "panic in %s: %v\n%s\n", asp, r, debug.Stack())
 				}
 				o.Errs = append(o.Errs, OErr{Asp: asp, Msg: fmt.Sprintf("panic: %v", r)})
 			}
@@ -262,6 +274,8 @@ func Observe(seg segment.Segment, pr *Probes) (o *Obs) {
 func observeDicts(seg segment.Segment, pr *Probes, o *Obs) error {
 	fields := append([]string(nil), pr.Fields...)
 	sort.Strings(fields)
+	var prePL segment.PostingsList
+	var preIt segment.PostingsIterator
 	for _, f := range fields {
 		d, e := seg.Dictionary(f)
 		if e != nil {
@@ -291,11 +305,39 @@ func observeDicts(seg segment.Segment, pr *Probes, o *Obs) error {
 			if e != nil {
 				return fmt.Errorf("PostingsList(%q,%q): %v", f, t, e)
 			}
-			n, hits, e := readHits(pl)
+			n, hits, e := readHits(pl, nil)
 			if e != nil {
 				return fmt.Errorf("postings iterate (%q,%q): %v", f, t, e)
 			}
 			o.Posts = append(o.Posts, OPost{F: B(f), T: B(t), N: n, Hits: hits})
+			// the same probe through a postings list and an iterator that are reused from probe to
+			// probe (across terms and fields), as bleve does; guarded separately (aspect "reuse")
+			func() {
+				defer func() {
+					if r := recover(); r != nil {
+						if u, ok := r.(unrepresentable); ok {
+							panic(u)
+						}
+						if os.Getenv("VERIF_DEBUG") != "" {
+							fmt.Fprintf(os.Stderr, "panic in reuse: %v\n%s\n", r, debug.Stack())
+						}
+						o.Errs = append(o.Errs, OErr{Asp: "reuse", Msg: fmt.Sprintf("panic: %v", r)})
+						prePL, preIt = nil, nil
+					}
+				}()
+				var e error
+				prePL, e = d.PostingsList([]byte(t), nil, prePL)
+				if e != nil {
+					o.Errs = append(o.Errs, OErr{Asp: "reuse", Msg: e.Error()})
+					return
+				}
+				n, hits, e := readHits(prePL, &preIt)
+				if e != nil {
+					o.Errs = append(o.Errs, OErr{Asp: "reuse", Msg: e.Error()})
+					return
+				}
+				o.Posts = append(o.Posts, OPost{F: B(f), T: B(t), N: n, Hits: hits, Pre: true})
+			}()
 		}
 		o.Dicts = append(o.Dicts, od)
 	}
@@ -372,6 +414,8 @@ func observeThes(seg segment.Segment, pr *Probes, o *Obs) error {
 		names = append(names, n)
 	}
 	sort.Strings(names)
+	var preSL segment.SynonymsList
+	var preSI segment.SynonymsIterator
 	for _, name := range names {
 		th, e := ts.Thesaurus(name)
 		if e != nil {
@@ -402,26 +446,43 @@ func observeThes(seg segment.Segment, pr *Probes, o *Obs) error {
 				exs = [][]int{nil}
 			}
 			for _, ex := range exs {
-				sl, e := th.SynonymsList([]byte(t), bmOf(ex), nil)
-				if e != nil {
-					return fmt.Errorf("SynonymsList: %v", e)
-				}
-				os := OSyn{T: B(t), Ex: Ints(ex), R: []OSynPair{}}
-				if os.Ex == nil {
-					os.Ex = Ints{}
-				}
-				sit := sl.Iterator(nil)
-				for {
-					s, e := sit.Next()
+				for pass := 0; pass < 2; pass++ {
+					// pass 1 reuses one synonyms list and one iterator from probe to probe (across
+					// terms, exclusion bitmaps and thesauri)
+					var sl segment.SynonymsList
+					var e error
+					if pass == 0 {
+						sl, e = th.SynonymsList([]byte(t), bmOf(ex), nil)
+					} else {
+						preSL, e = th.SynonymsList([]byte(t), bmOf(ex), preSL)
+						sl = preSL
+					}
 					if e != nil {
-						return fmt.Errorf("synonyms iter: %v", e)
+						return fmt.Errorf("SynonymsList: %v", e)
 					}
-					if s == nil {
-						break
+					os := OSyn{T: B(t), Ex: Ints(ex), R: []OSynPair{}}
+					if os.Ex == nil {
+						os.Ex = Ints{}
 					}
-					os.R = append(os.R, OSynPair{S: B(s.Term()), D: int(s.Number())})
+					var sit segment.SynonymsIterator
+					if pass == 0 {
+						sit = sl.Iterator(nil)
+					} else {
+						preSI = sl.Iterator(preSI)
+						sit = preSI
+					}
+					for {
+						s, e := sit.Next()
+						if e != nil {
+							return fmt.Errorf("synonyms iter: %v", e)
+						}
+						if s == nil {
+							break
+						}
+						os.R = append(os.R, OSynPair{S: B(s.Term()), D: int(s.Number())})
+					}
+					ot.Syns = append(ot.Syns, os)
 				}
-				ot.Syns = append(ot.Syns, os)
 			}
 		}
 		o.Thes = append(o.Thes, ot)
